@@ -111,6 +111,8 @@ Definition safe_step (f : fact) (u : uop) : option fact :=
       | ERest => if in_range f s then Some (forget_field f fld) else None
       | _ => if simple e && entails f s e then Some (forget_field f fld) else None
       end
+  | UIntArr s fld _ _ e =>
+      if simple e && entails f s e then Some (forget_field f fld) else None
   | UNested s fld t e =>
       if negb (known_nested t) then None else
       match e with
@@ -147,11 +149,12 @@ Definition uncond_after (f : fact) (u : uop) : fact :=
   | UGuard _ _ => f
   | UInt _ fld _ _ _ => forget_field f fld
   | UBytes _ fld _ => forget_field f fld
+  | UIntArr _ fld _ _ _ => forget_field f fld
   | _ => FNone
   end.
 
 Definition cond_body (u : uop) : bool :=
-  match u with UGuard _ _ | UInt _ _ _ _ _ | UBytes _ _ _ | UAdv _ => true | _ => false end.
+  match u with UGuard _ _ | UInt _ _ _ _ _ | UBytes _ _ _ | UIntArr _ _ _ _ _ | UAdv _ => true | _ => false end.
 
 Definition safe_step2 (a : astate) (u : uop) : option astate :=
   match u with
@@ -180,7 +183,7 @@ Definition cmd_safe (c : cmd_desc) : bool := safe_uops (FZero, None) (cd_unmarsh
 Fixpoint uop_field (u : uop) : string :=
   match u with
   | UIf _ u' => uop_field u'
-  | UInt _ f _ _ _ | UBytes _ f _ | UNested _ f _ _ | UNested0 _ f _ => f
+  | UInt _ f _ _ _ | UBytes _ f _ | UIntArr _ f _ _ _ | UNested _ f _ _ | UNested0 _ f _ => f
   | UAdv _ => "<advance>"
   | UOpaque _ => "<untranslated statement>"
   | _ => "<other>"
